@@ -341,7 +341,22 @@ func c13Message(c *fw.Case, n *chain.Node, dk *distEnv, mc gen.MinterConfig, aut
 		var minters []*minttypes.Minter
 		start := cur.StartTime
 		label := ""
-		switch r.Intn(9) {
+		class := r.Intn(9)
+		if r.Intn(3) == 0 {
+			class = 9
+		}
+		switch class {
+		case 9: // the same schedule under other period ids: the id the minter state points at is gone
+			shift := uint32(1 + r.Intn(5))
+			for _, m := range cur.Minters {
+				cp := *m
+				cp.SequenceId += shift
+				minters = append(minters, &cp)
+			}
+			label = "periods-renumbered"
+			if now.Before(cur.StartTime) {
+				label = "periods-renumbered-before-start"
+			}
 		case 0: // brand-new valid configuration (may or may not contain the current period)
 			nc := gen.Minters(r, "uc4e", 30)
 			minters, start = nc.Params.Minters, nc.Params.StartTime
